@@ -31,6 +31,7 @@ From Verif Require Import Codec.Schema Codec.Value Codec.Xml Codec.Wf Codec.Scan
 From VerifGen Require Import GenSchema.
 Import ListNotations.
 Open Scope string_scope.
+Open Scope Z_scope.
 
 (* --- the schema regenerated from /repo uses the OSM XML vocabulary --- *)
 Theorem schema_ok : schema_okb gen_schema = true /\ literals_okb = true.
@@ -101,8 +102,13 @@ Print Assumptions attr_field_roundtrip_partial.
 
 (* --- non-vacuity --- *)
 Definition ex_node : value :=
-  VStruct [VInt 5; VFloat 192; VFloat (-288); VStr [97]; VInt 7; VBool true; VInt 2; VInt 9;
-           VTime 1000000000500000000; VList [VStruct [VStr [107]; VStr [60; 38]]]; VPtr (Some (VTime 5))].
+  Eval vm_compute in
+  mk gen_schema "Node"
+     [("ID", VInt 5); ("Lat", VFloat 192); ("Lon", VFloat (-288)); ("User", VStr [97]); ("UserID", VInt 7);
+      ("Visible", VBool true); ("Version", VInt 2); ("ChangesetID", VInt 9);
+      ("Timestamp", VTime 1000000000500000000);
+      ("Tags", VList [mk gen_schema "Tag" [("Key", VStr [107]); ("Value", VStr [60; 38])]]);
+      ("Committed", VPtr (Some (VTime 5)))].
 
 Example ex_node_wf : wfb gen_schema "Node" ex_node = true.
 Proof. vm_compute. reflexivity. Qed.
